@@ -172,8 +172,70 @@ def _classes_chunk(chunk):
     return len(chunk), nt, fails
 
 
+def _native_chunk(chunk):
+    """to_native() is a READ: with the real gcc compiler object (GNU-like linker, default include directories) it returns the command-line
+    form of the list — group markers around the libraries, default -isystem directories dropped — and leaves the list as it was: reading
+    twice gives the same answer, and what is read afterwards is what was added (nothing invented, nothing lost)"""
+    import argparse, shutil, tempfile, sys as _sys, os as _os
+    _sys.path.insert(0, _os.environ.get('VERIF_REPO', '/repo'))
+    from mesonbuild import environment
+    from mesonbuild.msetup import add_arguments
+    from mesonbuild.compilers.detect import detect_c_compiler
+    from mesonbuild.mesonlib import MachineChoice
+    fails, nt = [], 0
+    d = tempfile.mkdtemp(prefix='c13nat')
+    try:
+        p = argparse.ArgumentParser()
+        add_arguments(p)
+        env = environment.Environment(d, d, p.parse_args([d, d]))
+        cc = detect_c_compiler(env, MachineChoice.HOST)
+        dflt = list(cc.get_default_include_dirs())
+        for args in chunk:
+            args = [a.replace('@DEFAULT@', dflt[0] if dflt else '/usr/include') for a in args]
+            for copy in (False, True):
+                a = cc.compiler_args(list(args))
+                before = list(a)
+                n1 = a.to_native(copy=copy)
+                mid = list(a)
+                n2 = a.to_native(copy=copy)
+                nt += 1
+                case = {'arguments': args, 'copy': copy}
+                if mid != before:
+                    fails.append({'case': case, 'stage': 'native', 'detail': f'reading with to_native(copy={copy}) changed the list: {before!r} became {mid!r}'})
+                elif n1 != n2:
+                    fails.append({'case': case, 'stage': 'native', 'detail': f'two consecutive to_native(copy={copy}) calls answer {n1!r} and then {n2!r}'})
+                elif [x for x in n1 if x not in ('-Wl,--start-group', '-Wl,--end-group')] != [x for i, x in enumerate(before) if not _dropped(before, i, dflt)]:
+                    fails.append({'case': case, 'stage': 'native', 'detail': f'to_native gives {n1!r} for the list {before!r}: apart from the group markers and default -isystem directories nothing may be added, lost or moved'})
+    finally:
+        shutil.rmtree(d, ignore_errors=True)
+    return len(chunk), nt, fails
+
+
+def _dropped(lst, i, dflt):
+    import os
+    rd = {os.path.realpath(x) for x in dflt}
+    x = lst[i]
+    if x == '-isystem':
+        return i + 1 < len(lst) and os.path.realpath(lst[i + 1]) in rd
+    if i > 0 and lst[i - 1] == '-isystem' and os.path.realpath(x) in rd:
+        return True
+    if x.startswith('-isystem='):
+        return os.path.realpath(x[9:]) in rd
+    if x.startswith('-isystem'):
+        return os.path.realpath(x[8:]) in rd
+    return False
+
+
+NATIVE_LISTS = [['-O2', '-lfoo', '-lbar'], ['-lfoo'], ['-O2'], ['libx.a', '-DX', 'liby.a', '-lm'], ['-isystem@DEFAULT@', '-lfoo', '-lbar'], ['-isystem', '@DEFAULT@', '-Iinc'],
+                ['-isystem=@DEFAULT@', '-isystem/opt/not-default', '-la', '-lb', '-lc'], ['-Wl,-lfoo', '-Wl,-lbar', '-pthread'], []]
+
+
 def run(REG, tier, seed, jobs):
     parts = []
+    ev, nt, fails = pmap(_native_chunk, chunked(iter(NATIVE_LISTS), len(NATIVE_LISTS)), 1)
+    parts.append({'name': 'C13/bounded/to_native-is-a-read', 'function': 'CLikeCompilerArgs.to_native (real gcc compiler object: GNU-like linker, default include directories)',
+                  'bound': f'{len(NATIVE_LISTS)} argument lists (several libraries, one library, none; default -isystem directories in three spellings) x copy=False / True: the list is unchanged by the read, two reads agree, nothing but group markers is added and nothing but default -isystem directories is dropped',
+                  'evaluations': ev, 'distinct_nontrivial': nt, 'rule': 'every list', 'exhaustive': True, 'failures': fails})
     cc, n_ = [], 0
     for order in (('plain', 'clike'), ('clike', 'plain')):
         for kind, tmpl in (('override-front', '-I/u{}'), ('override-front', '-L/u{}'), ('override-last', '-DU{}=1'), ('override-last', '-isystem/u{}'), ('once', '-lu{}'), ('once', '/abs/libu{}.a'), ('once', '/d/libu{}.so.1')):
